@@ -17,7 +17,8 @@ TECHNIQUE = "must-pass-through on a statement CFG (check loop dominates construc
 CLAIM = ("Decides: 'balance' is in the default checks and the constructor runs every check with throw=True on all normal exits; "
          "check_balance ranges over all reactions and all composition keys and cannot return True early; charge (key 0) is not skipped; "
          "the violation sum is composition[key]*net coefficient over aligned substances; composition_balance_vectors is rows=keys, "
-         "cols=substances; one matrix feeds linear_invariants and the analytic solver.")
+         "cols=substances; one matrix feeds linear_invariants and the analytic solver."
+         ' Verdict values of check_balance and key set of composition_violation (R7). Shared rule A1: no swapped same-named arguments at resolved in-package call sites.')
 DOES_NOT_DECIDE = "numerical conservation during integration (delegated solver)"
 ASSUMPTIONS = ["zip/dict iteration order semantics of Python >= 3.7"]
 
